@@ -1562,7 +1562,16 @@ func (w *WEval) evalFuncResult(ri int) *Lay {
 		}
 		for _, r := range rets {
 			if r == d.Ret && ri < len(r.Results) {
-				return w.eval(r.Results[ri])
+				// evaluated along this path: writes in blocks the path does not visit did not happen
+				savedMemo, savedBlocks := w.memo, w.pathBlocks
+				w.memo = map[ssa.Value]*Lay{}
+				w.pathBlocks = map[*ssa.BasicBlock]bool{}
+				for _, b := range d.Blocks {
+					w.pathBlocks[b] = true
+				}
+				l := w.eval(r.Results[ri])
+				w.memo, w.pathBlocks = savedMemo, savedBlocks
+				return l
 			}
 		}
 		return nil
@@ -2004,6 +2013,7 @@ func (w *WEval) expandBoolPhi(ph *ssa.Phi, want bool, depth int) ([][]condLit, b
 				return
 			}
 			atom := w.term(cond)
+			registerAtom(atom, newTermEnv().Term(cond))
 			step(x.Succs[0], &condLit{Atom: atom, Truth: !neg})
 			step(x.Succs[1], &condLit{Atom: atom, Truth: neg})
 		}
